@@ -54,30 +54,33 @@ def o1_incumbent(F, r):
             r.ok("Greedy::add[empty]", "first individual stored")
         else:
             r.fail("Greedy::add[empty]", f"first offered individual not stored ({kept})", F.loc(g))
-    # Rosomaxa::is_comparable_with_best_known: the filter in front of the elite
+    # Rosomaxa::is_comparable_with_best_known: the filter in front of the elite — the whole function is evaluated (form independent: closures of Option
+    # combinators are interpreted), for an empty elite and for every ordering of (individual, best)
     root = F.find1("Rosomaxa::is_comparable_with_best_known")
-    cls = F.children.get(root, [])
-    if len(cls) != 1:
-        raise AnchorError(f"is_comparable_with_best_known: expected one closure, found {len(cls)}")
-    c = cls[0]
-    up = F.fns[c].get("upvars", [])
-    env_c = ("closure", c, [oe.ref(oe.ref(oe.sym("ind"))) if "individual" in u[0] else oe.ref(oe.sym("self")) for u in up])
+    it = oe.Interp(F, root, {1: oe.ref(oe.sym("self")), 2: oe.ref(oe.sym("ind")), 3: oe.NONE}, fresh=True)
+    try:
+        rets = {p.ret for p in it.explore()}
+    except oe.Undecided as e:
+        rets = {("undecided", str(e))}
+    if rets == {("bool", True)}:
+        r.ok("Rosomaxa::is_comparable_with_best_known[no best]", "true when the elite is empty")
+    else:
+        r.fail("Rosomaxa::is_comparable_with_best_known[no best]", f"with an empty elite the filter answers {sorted(map(str, rets))}: the first individuals never reach the elite", F.loc(root))
     for o in "LEG":
-        it = oe.Interp(F, c, {1: env_c, 2: oe.ref(oe.sym("best"))}, rel={("ind", "best"): o})
-        for p in it.explore():
-            inst = f"Rosomaxa::is_comparable_with_best_known[total_order(ind,best)={o}]"
+        it = oe.Interp(F, root, {1: oe.ref(oe.sym("self")), 2: oe.ref(oe.sym("ind")), 3: oe.some(oe.ref(oe.sym("best")))}, rel={("ind", "best"): o}, fresh=True)
+        inst = f"Rosomaxa::is_comparable_with_best_known[total_order(ind,best)={o}]"
+        try:
+            paths = it.explore()
+        except oe.Undecided as e:
+            r.fail(inst, f"not decidable by the ordering evaluator ({e})", F.loc(root))
+            continue
+        for p in paths:
             if o in "LE" and p.ret != ("bool", True):
-                r.fail(inst, f"an individual that is no worse than the elite's best is filtered out before the elite (returns {p.ret}): the elite can end up worse than an offered individual", F.loc(c))
-            elif p.ret[0] != "bool":
-                r.fail(inst, f"not decidable by the ordering evaluator (returns {p.ret})", F.loc(c))
+                r.fail(inst, f"an individual that is no worse than the elite's best is filtered out before the elite (returns {p.ret}): the elite can end up worse than an offered individual", F.loc(root))
+            elif not p.ret or p.ret[0] != "bool":
+                r.fail(inst, f"not decidable by the ordering evaluator (returns {p.ret})", F.loc(root))
             else:
                 r.ok(inst, f"returns {p.ret[1]}")
-    rf = F.fns[root]
-    ok_none = any(t["callee"].endswith("Option::<T>::is_none_or") for _, t in mir.calls(rf))
-    if ok_none:
-        r.ok("Rosomaxa::is_comparable_with_best_known[no best]", "Option::is_none_or => true when the elite is empty")
-    else:
-        r.fail("Rosomaxa::is_comparable_with_best_known[no best]", "no longer built on Option::is_none_or: behaviour for an empty elite is not decided", F.loc(root))
 
 
 def o2_every_offer_compared(F, r):
